@@ -1,6 +1,241 @@
-//! (placeholder, filled in with the interpreter replay)
-use serde_json::Value;
+//! Native replay of a miter counterexample.
+//!
+//! The stimulus (one map of input-port values per cycle; cycle 0 has reset
+//! asserted) is applied to
+//!   (a) the repository's interpreter (`Simulator`, use_jit = false) on the RTL,
+//!   (b) the gate netlist the repository's synthesizer produces right now,
+//!       evaluated by the small gate evaluator below,
+//! and the outputs are compared cycle by cycle.  Only a difference seen here is
+//! reported as a violation.
+
+use serde_json::{Value as J, json};
+use std::collections::HashMap;
 use veryl_analyzer::ir as air;
-pub fn replay(_ir: &air::Ir, _top: &str, _stim: &Value) -> String {
-    String::from("{}")
+use veryl_analyzer::value::Value;
+use veryl_parser::resource_table;
+use veryl_simulator::Simulator;
+use veryl_simulator::ir::{Config, build_ir};
+use veryl_synthesizer::ir::{CellKind, GateModule, NetDriver};
+use veryl_synthesizer::{PortDir, RamConfig, ResetPolarity, build_gate_ir_with_library, library_for};
+
+fn cell(kind: CellKind, x: &[bool]) -> bool {
+    use CellKind::*;
+    match kind {
+        Buf => x[0],
+        Not => !x[0],
+        And2 => x[0] & x[1],
+        Or2 => x[0] | x[1],
+        Nand2 => !(x[0] & x[1]),
+        Nor2 => !(x[0] | x[1]),
+        Xor2 => x[0] ^ x[1],
+        Xnor2 => !(x[0] ^ x[1]),
+        And3 => x[0] & x[1] & x[2],
+        Or3 => x[0] | x[1] | x[2],
+        Nand3 => !(x[0] & x[1] & x[2]),
+        Nor3 => !(x[0] | x[1] | x[2]),
+        Ao21 => (x[0] & x[1]) | x[2],
+        Aoi21 => !((x[0] & x[1]) | x[2]),
+        Oa21 => (x[0] | x[1]) & x[2],
+        Oai21 => !((x[0] | x[1]) & x[2]),
+        Ao31 => (x[0] & x[1] & x[2]) | x[3],
+        Aoi31 => !((x[0] & x[1] & x[2]) | x[3]),
+        Ao22 => (x[0] & x[1]) | (x[2] & x[3]),
+        Aoi22 => !((x[0] & x[1]) | (x[2] & x[3])),
+        Oai22 => !((x[0] | x[1]) & (x[2] | x[3])),
+        Mux2 => {
+            if x[0] {
+                x[2]
+            } else {
+                x[1]
+            }
+        }
+    }
+}
+
+struct Gates<'a> {
+    m: &'a GateModule,
+    ffq: Vec<bool>,
+    ram: Vec<Vec<bool>>, // flat contents per RAM block
+}
+
+impl<'a> Gates<'a> {
+    fn new(m: &'a GateModule) -> Self {
+        Gates {
+            m,
+            ffq: vec![false; m.ffs.len()],
+            ram: m.ram_blocks.iter().map(|r| vec![false; r.depth * r.width]).collect(),
+        }
+    }
+    fn eval(&self, n: u32, inp: &HashMap<u32, bool>, memo: &mut HashMap<u32, bool>, depth: usize) -> Result<bool, String> {
+        if let Some(v) = memo.get(&n) {
+            return Ok(*v);
+        }
+        if depth > 200_000 {
+            return Err("combinational cycle".into());
+        }
+        let v = match &self.m.nets[n as usize].driver {
+            NetDriver::Const(b) => *b,
+            NetDriver::PortInput => *inp.get(&n).ok_or("unset input net")?,
+            NetDriver::Cell(i) => {
+                let c = &self.m.cells[*i];
+                let mut xs = Vec::with_capacity(4);
+                for &i in &c.inputs {
+                    xs.push(self.eval(i, inp, memo, depth + 1)?);
+                }
+                cell(c.kind, &xs)
+            }
+            NetDriver::FfQ(i) => self.ffq[*i],
+            NetDriver::RamRead(r, p, b) => {
+                let ram = &self.m.ram_blocks[*r];
+                let rp = &ram.read_ports[*p];
+                if rp.sync {
+                    return Err("synchronous RAM read".into());
+                }
+                let mut a = 0usize;
+                for (k, &n) in rp.addr.iter().enumerate() {
+                    if self.eval(n, inp, memo, depth + 1)? {
+                        a |= 1 << k;
+                    }
+                }
+                if a < ram.depth { self.ram[*r][a * ram.width + *b] } else { false }
+            }
+            NetDriver::Undriven => return Err(format!("undriven net {n}")),
+        };
+        memo.insert(n, v);
+        Ok(v)
+    }
+    fn edge(&mut self, inp: &HashMap<u32, bool>, memo: &mut HashMap<u32, bool>) -> Result<(), String> {
+        let mut nq = self.ffq.clone();
+        for (i, ff) in self.m.ffs.iter().enumerate() {
+            let d = self.eval(ff.d, inp, memo, 0)?;
+            nq[i] = match &ff.reset {
+                Some(r) => {
+                    let rn = self.eval(r.net, inp, memo, 0)?;
+                    let active = match r.polarity {
+                        ResetPolarity::ActiveHigh => rn,
+                        ResetPolarity::ActiveLow => !rn,
+                    };
+                    if active { ff.reset_value } else { d }
+                }
+                None => d,
+            };
+        }
+        let mut nram = self.ram.clone();
+        for (ri, ram) in self.m.ram_blocks.iter().enumerate() {
+            for wp in &ram.write_ports {
+                if !self.eval(wp.enable, inp, memo, 0)? {
+                    continue;
+                }
+                let mut a = 0usize;
+                for (k, &n) in wp.addr.iter().enumerate() {
+                    if self.eval(n, inp, memo, 0)? {
+                        a |= 1 << k;
+                    }
+                }
+                if a >= ram.depth {
+                    continue;
+                }
+                for b in 0..ram.width {
+                    let m = match &wp.mask {
+                        Some(mk) => self.eval(mk[b], inp, memo, 0)?,
+                        None => true,
+                    };
+                    if m {
+                        nram[ri][a * ram.width + b] = self.eval(wp.data[b], inp, memo, 0)?;
+                    }
+                }
+            }
+        }
+        self.ffq = nq;
+        self.ram = nram;
+        Ok(())
+    }
+}
+
+pub fn replay(ir: &air::Ir, top: &str, stim: &J) -> String {
+    let r = replay_inner(ir, top, stim);
+    match r {
+        Ok(j) => j.to_string(),
+        Err(e) => json!({"error": e}).to_string(),
+    }
+}
+
+fn replay_inner(ir: &air::Ir, top: &str, stim: &J) -> Result<J, String> {
+    let top_id = resource_table::insert_str(top);
+    let frames = stim["stimulus"].as_array().ok_or("stimulus")?;
+    let clock = stim["clock"].as_str();
+    let lib = match stim["cfg"]["library"].as_str().unwrap_or("sky130") {
+        "asap7" => veryl_synthesizer::Library::Asap7,
+        "gf180mcu" => veryl_synthesizer::Library::Gf180mcu,
+        "ihp-sg13g2" => veryl_synthesizer::Library::IhpSg13g2,
+        _ => veryl_synthesizer::Library::Sky130,
+    };
+    let d = RamConfig::default();
+    let rc = match stim["cfg"]["ram"].as_str().unwrap_or("ram-default") {
+        "ram-off" => RamConfig { min_bits: usize::MAX, ..d },
+        "ram-min1" => RamConfig { min_bits: 1, ..d },
+        _ => d,
+    };
+    unsafe {
+        if stim["cfg"]["restructure"].as_bool().unwrap_or(true) {
+            std::env::remove_var("VERYL_SYNTH_NO_RESTRUCTURE");
+        } else {
+            std::env::set_var("VERYL_SYNTH_NO_RESTRUCTURE", "1");
+        }
+    }
+    let gate = build_gate_ir_with_library(ir, top_id, rc, library_for(lib)).map_err(|e| format!("synth: {e}"))?;
+    let g = &gate.module;
+
+    // (a) the repository's interpreter
+    let config = Config { use_jit: false, ..Default::default() };
+    let sim_ir = build_ir(ir, top_id, &config).map_err(|e| format!("simulator ir: {e}"))?;
+    let mut sim = Simulator::new(sim_ir, None);
+    let clk_ev = match clock {
+        Some(c) => Some(sim.get_clock(c).ok_or("clock port")?),
+        None => None,
+    };
+
+    // (b) the netlist
+    let mut gates = Gates::new(g);
+    let in_ports: Vec<_> = g.ports.iter().filter(|p| p.dir == PortDir::Input).collect();
+    let out_ports: Vec<_> = g.ports.iter().filter(|p| p.dir == PortDir::Output).collect();
+
+    let mut trace = Vec::new();
+    let mut first_diff = J::Null;
+    for (t, fr) in frames.iter().enumerate() {
+        let mut inp: HashMap<u32, bool> = HashMap::new();
+        for p in &in_ports {
+            let name = p.name.to_string();
+            let v = fr.get(&name).and_then(|x| x.as_str()).map(|s| u128::from_str_radix(s, 16).unwrap_or(0)).unwrap_or(0);
+            for (i, &n) in p.nets.iter().enumerate() {
+                inp.insert(n, i < 128 && (v >> i) & 1 == 1);
+            }
+            if Some(name.as_str()) != clock {
+                sim.set(&name, Value::from_u128(v, 0, p.nets.len(), false));
+            }
+        }
+        let mut memo = HashMap::new();
+        let mut row = serde_json::Map::new();
+        for p in &out_ports {
+            let name = p.name.to_string();
+            let mut nv: u128 = 0;
+            for (i, &n) in p.nets.iter().enumerate() {
+                if gates.eval(n, &inp, &mut memo, 0)? && i < 128 {
+                    nv |= 1 << i;
+                }
+            }
+            let sv = sim.get(&name).map(|v| v.payload_u128()).unwrap_or(0);
+            let m = if p.nets.len() >= 128 { u128::MAX } else { (1u128 << p.nets.len()) - 1 };
+            row.insert(name.clone(), json!({"rtl": format!("{:x}", sv & m), "netlist": format!("{:x}", nv & m)}));
+            if t > 0 && (sv & m) != (nv & m) && first_diff.is_null() {
+                first_diff = json!({"cycle": t, "port": name, "rtl": format!("{:x}", sv & m), "netlist": format!("{:x}", nv & m)});
+            }
+        }
+        trace.push(J::Object(row));
+        gates.edge(&inp, &mut memo)?;
+        if let Some(ev) = &clk_ev {
+            sim.step(ev);
+        }
+    }
+    Ok(json!({"reproduced": !first_diff.is_null(), "first_diff": first_diff, "trace": trace}))
 }
